@@ -337,6 +337,9 @@ def byteTextWrap(text, size, break_on_hyphens=False):
     words.reverse() # use it as a stack
     if sys.version_info[0] >= 3:
         words = [w.encode() for w in words]
+    # A line must be able to hold one character (at most 4 bytes in UTF-8),
+    # or the loop below never ends (splitBytes returns an empty first part).
+    size = max(size, 4)
     lines = [b'']
     while words:
         word = words.pop(-1)
